@@ -154,6 +154,20 @@ func (c *relsCtx) step(op Op, i int) string {
 		return errRet(d.AddFootnote("body "+tok, "note "+tok))
 	case "AddEndnote":
 		return errRet(d.AddEndnote("body "+tok, "endnote "+tok))
+	case "RemoveFootnote", "RemoveEndnote":
+		// one note (the lowest id the document still has) or all of them; ids are tried in order, a document
+		// without notes is left alone
+		for k := 1; k <= 24; k++ {
+			var err error
+			if op.Name() == "RemoveFootnote" {
+				err = d.RemoveFootnote(fmt.Sprint(k))
+			} else {
+				err = d.RemoveEndnote(fmt.Sprint(k))
+			}
+			if err == nil && !op.Bool("all") {
+				break
+			}
+		}
 	case "SetFootnoteConfig":
 		cfg := document.DefaultFootnoteConfig()
 		if n%2 == 0 {
